@@ -317,3 +317,53 @@ class regular_polygon_rotate:
             result.rotate(center, -angle).center.x == self.center.x and result.rotate(center, -angle).center.y == self.center.y
             and result.rotate(center, -angle).angle.to_value('rad') == self.angle.to_value('rad'),
     }
+
+
+def _concrete_polygon(B, n):
+    """a polygon with a concrete number of free vertices (sums over the vertices are then finite expressions)"""
+    import numpy as np
+    vs = [(B.real('v%d.x' % i), B.real('v%d.y' % i)) for i in range(n)]
+    verts = B.construct(PIXCOORD, 'verts', B.call(np.array, [v[0] for v in vs]), B.call(np.array, [v[1] for v in vs]))
+    return B.construct(POLYGON, 'r', verts, meta=mk_meta(B, 'r.meta', 'bool'), visual=mk_visual(B, 'r.visual')), vs
+
+
+def _shoelace(vs):
+    n = len(vs)
+    s = 0
+    for i in range(n):
+        j = (i + 1) % n
+        s = s + vs[i][0] * vs[j][1] - vs[j][0] * vs[i][1]
+    return s
+
+
+@contract(POLYGON + '.area', props=['C15', 'C13'])
+class polygon_area_and_its_invariance_under_rotation:
+    """area = |shoelace sum| / 2 (3 to 5 free vertices), and the rotated polygon has the same area"""
+    cases = {'n%d' % n: {'n': n} for n in (3, 4, 5)}
+
+    def setup(B, n=3):
+        r, vs = _concrete_polygon(B, n)
+        return dict(self=r, vs=vs, center=pix(B, 'c'), angle=B.quantity('theta', 'deg'))
+    call = lambda self, center, angle: (self.area, self.rotate(center, angle).area)
+    post = {
+        'shoelace': lambda vs, result: (result[0] == _shoelace(vs) / 2 or result[0] == -_shoelace(vs) / 2) and result[0] >= 0,
+        'same_area_after_rotation': lambda result: result[0] == result[1],
+    }
+
+
+@contract(RECTANGLE + '.to_polygon', props=['C15', 'C13', 'C01'])
+class rectangle_as_polygon_has_the_rotated_corners:
+    """vertex m of the equivalent polygon is corner m of the rectangle: (+-w/2, +-h/2) turned anti-clockwise by the angle about the centre"""
+    cases = UU
+
+    def setup(B, unit='deg'):
+        return dict(self=rectangle(B, 'r', 'bool', unit))
+    pre = lambda self: self.width > 0 and self.height > 0
+    post = {
+        'is_polygon': lambda result: result.__class__.__name__ == 'PolygonPixelRegion' and len(result.vertices.x) == 4,
+        'corners': lambda self, result: all(
+            result.vertices.x[m] == rot(self.center.x, self.center.y, cs(self.angle)[0], cs(self.angle)[1], self.center.x + sx * self.width / 2, self.center.y + sy * self.height / 2)[0]
+            and result.vertices.y[m] == rot(self.center.x, self.center.y, cs(self.angle)[0], cs(self.angle)[1], self.center.x + sx * self.width / 2, self.center.y + sy * self.height / 2)[1]
+            for m, (sx, sy) in enumerate(((-1, -1), (1, -1), (1, 1), (-1, 1)))),
+        'meta_visual_copied': lambda self, result: meta_equal_fresh(self, result),
+    }
